@@ -592,6 +592,39 @@ class Strftime(Op):
         return point_class(a[0], a[1]) != "plain" or fmt_class(a[2]) != "literal-only"
 
 
+class StrfDerived(Strftime):
+    """strftime of the SAME value obtained through arithmetic: (p + d) - d with durations as the duration parser
+    builds them (their components - and then the point's hour / minute / second - are floats), and p re-zoned
+    there and back.  The text must be what the freshly built point prints (the driver line is the `strftime` one)."""
+    name = "strfderived"
+    sibling = None        # (a respelled sibling may be a 24:00 spelling, which arithmetic normalises)
+
+    def gen(self, rng, tier, boost):
+        n = (1200 if tier == "quick" else 20000) * boost
+        if self.shard:
+            n = n // self.shard[1] + 1
+        for _ in range(n):
+            m = gens.mode(rng)
+            kind = rng.choice(["nice", "full", "unix", "unix", "free"])
+            t = gen_point(rng, m, unixy=False)
+            if t[4] == 24:
+                continue      # arithmetic turns the 24:00 spelling into the next day's 00:00, which prints differently
+            yield (m, t, gen_format(rng, kind))
+
+    def impl(self, a):
+        from metomi.isodatetime.parsers import DurationParser
+        from metomi.isodatetime.data import TimeZone
+        set_mode(a[0])
+        try:
+            p = T.mk_tp(a[1])
+            d = DurationParser().parse("P1DT1H30M15S")
+            q = (p + d) - d
+            q = q.to_time_zone(TimeZone(hours=3, minutes=30)).to_time_zone(p.time_zone)
+            return "ok " + hx(q.strftime(a[2]))
+        except Exception as exc:  # noqa
+            return classify(exc)
+
+
 class StrfBad(Strftime):
     """Every other %-letter (exhaustive over ASCII word characters), alone and inside a format."""
     name = "strfbad"
@@ -894,4 +927,4 @@ def ops():
     import common
     common.foreign_configurations()
     import strf2ops
-    return [Strftime(), StrfBad(), Strptime(), RoundTrip(), Sweep(), strf2ops.Strftime2Op()]
+    return [Strftime(), StrfDerived(), StrfBad(), Strptime(), RoundTrip(), Sweep(), strf2ops.Strftime2Op()]
